@@ -86,6 +86,12 @@ def expandChars (jugfile date : String) : Nat → List Char → Option (List Cha
 def expandJugdir (template jugfile date : String) : Option String :=
   (expandChars jugfile date (template.length + 1) template.toList).map String.ofList
 
+/-- the store location a command of the project operates on: the location selected by the jugfile itself
+    (`jug.set_jugdir(...)` while it is being loaded) if there is one, otherwise the expanded template; a malformed template
+    is an error before the jugfile is even loaded. The subcommand is deliberately not a parameter. -/
+def storeFor (override : Option String) (template jugfile date : String) : Option String :=
+  (expandJugdir template jugfile date).map (fun e => override.getD e)
+
 /-! ### the argument vector seen by the jugfile -/
 
 /-- `sys.argv[:] = [cmdline.jugfile] + argopts.user_args` where argparse has assigned the first positional
